@@ -148,7 +148,7 @@ def _chk_cov(args, res, old):
                 return "%s: row %r does not keep its bin's coordinates %r" % (label, (r.chromosome, r.start, r.end), x[:3])
             if r.gene != x[3]:
                 return "%s: bin %r name %r, expected %r" % (label, x[:3], r.gene, x[3])
-            if abs(r.depth - x[4]) > 1e-9 * max(1.0, x[4]) or abs(r.log2 - x[5]) > 1e-9 * max(1.0, abs(x[5])):
+            if not abs(r.depth - x[4]) <= 1e-9 * max(1.0, x[4]) or not abs(r.log2 - x[5]) <= 1e-9 * max(1.0, abs(x[5])):
                 return "%s (mapq cut-off %d): bin %r depth/log2 = (%r, %r), expected (%r, %r)" % (
                     label, old["min_mapq"], x[:3], r.depth, r.log2, x[4], x[5])
 
